@@ -1,6 +1,6 @@
 #!/usr/bin/env python3
 """tools/seed_matrix.py [ids...] : for every seeded change apply it to /repo, run the owning check (quick tier), undo it,
-and record which violation keys fired in seeded/<id>/meta.json (`detected_by`) and in seeded/MATRIX.json.
+in a scratch worktree (VERIF_REPO), and record which violation keys fired in seeded/<id>/meta.json (`detected_by`) and in seeded/MATRIX.json.
 Never leaves /repo dirty (git reset --hard in a finally block)."""
 import json
 import os
@@ -21,11 +21,23 @@ def sh(cmd, **kw):
     return subprocess.run(cmd, shell=True, capture_output=True, text=True, **kw)
 
 
+WT = "/tmp/verif-seedrepo"          # scratch worktree: /repo itself is never touched (background runs may be using it)
+
+
 def main():
     ids = sys.argv[1:] or sorted(d for d in os.listdir(SEEDED) if re.fullmatch(r"C\d\d-[AB]", d))
-    if sh("git -C /repo status --porcelain").stdout.strip():
-        print("/repo dirty, refusing")
+    sh(f"git -C /repo worktree remove --force {WT}")
+    if sh(f"git -C /repo worktree add --detach {WT} HEAD").returncode:
+        print("cannot create the scratch worktree")
         return 2
+    try:
+        return run(ids)
+    finally:
+        sh(f"git -C /repo worktree remove --force {WT}")
+        sh("rm -rf /tmp/verif-seed-evidence")
+
+
+def run(ids):
     matrix_path = os.path.join(SEEDED, "MATRIX.json")
     matrix = json.load(open(matrix_path)) if os.path.exists(matrix_path) else {}
     for sid in ids:
@@ -36,16 +48,16 @@ def main():
             patch = os.path.join(d, "patch.diff")
         t0 = time.time()
         try:
-            r = sh(f"git -C /repo apply {patch}")
+            r = sh(f"git -C {WT} apply {patch}")
             if r.returncode:
-                r = sh(f"git -C /repo apply --3way {patch}")
+                r = sh(f"git -C {WT} apply --3way {patch}")
             if r.returncode:
                 matrix[sid] = {"check": prop, "applies": False, "error": r.stderr[-300:]}
                 print(sid, "patch does not apply")
                 continue
             tried = []
             for chk in [prop] + ALT.get(prop, []):
-                r = sh(f"cd {ROOT} && timeout 1700 ./check {chk} --tier quick")
+                r = sh(f"cd {ROOT} && VERIF_REPO={WT} VERIF_EVIDENCE_DIR=/tmp/verif-seed-evidence timeout 1700 ./check {chk} --tier quick")
                 keys = sorted(set(re.findall(r"^\s+key=(\S+)", r.stdout, re.M)))
                 known = sorted(set(re.findall(r"^KNOWN-FINDING: property=\S+ (\S+)", r.stdout, re.M)))
                 keys = [k for k in keys if k not in known]
@@ -56,7 +68,7 @@ def main():
                            "patch": os.path.basename(patch), "tried": tried}
             print(sid, "check", chk, "exit", r.returncode, keys[:4], flush=True)
         finally:
-            sh("git -C /repo reset -q --hard HEAD")
+            sh(f"git -C {WT} reset -q --hard HEAD")
         meta_path = os.path.join(d, "meta.json")
         meta = json.load(open(meta_path))
         m = matrix[sid]
